@@ -167,6 +167,10 @@ def constructed(rng):
     for op, l, r, n in K.api_small_divisor_top_word(rng, 60, G.fD, 18):
         if op == "mulr":
             out.append("%s %s %s %s" % (rng.choice(("mul", "cmul")), rng.choice(("vv", "*", "rr")), l, r))
+    # 5e. identical operands (x * x; the driver also runs `&x * &x` with both references to one object)
+    for s in range(19):
+        for c in (0, 1, -1, 5, P10[s], 13043817825, -13043817826, rng.getrandbits(63), G.small_coeff(rng, 60)):
+            out.append("%s * %s %s" % (rng.choice(("mul", "cmul")), G.fD(c, s), G.fD(c, s)))
     # 6. zero / one operands in every representation
     for s in range(19):
         for t in (0, 5, 18):
